@@ -301,3 +301,60 @@ func phiKeeps(ph *ssa.Phi, e ssa.Value) bool {
 	}
 	return true
 }
+
+// eof2ScanEnds: a log / hint scan ends normally only on io.EOF: comparing the reader's error with any OTHER sentinel
+// and leaving the loop without an error (ErrClosed treated as end of file, ...) turns an aborted scan into a
+// complete one.
+func eof2ScanEnds(p *core.Prog, rep *core.Report) {
+	rep.Rule("EOF2", "scans end only on io.EOF: the error returned by NextLogRecord / NextHintRecord is compared for equality only with io.EOF (any other sentinel accepted as a normal end makes an aborted scan look complete: Merge would write its finished marker for a partial output, Open would index a partial log)")
+	n := 0
+	var bad []string
+	for _, fn := range p.LibFuncs() {
+		if !inRootPkg(fn) {
+			continue
+		}
+		for _, b := range fn.Blocks {
+			for _, in := range b.Instrs {
+				c, ok := in.(*ssa.Call)
+				if !ok {
+					continue
+				}
+				callee := c.Common().StaticCallee()
+				if callee == nil || core.RecvNamed(callee) != p.R.DataReader || (callee.Name() != "NextLogRecord" && callee.Name() != "NextHintRecord") {
+					continue
+				}
+				n++
+				e := errValueOf(c)
+				if e == nil {
+					continue
+				}
+				for _, ref := range *e.Referrers() {
+					bo, ok := ref.(*ssa.BinOp)
+					if !ok || (bo.Op != token.EQL && bo.Op != token.NEQ) {
+						continue
+					}
+					other := bo.Y
+					if other == e {
+						other = bo.X
+					}
+					if core.IsNilConst(other) {
+						continue
+					}
+					isEOF := false
+					if u, ok := other.(*ssa.UnOp); ok {
+						if g, ok := u.X.(*ssa.Global); ok && g.Name() == "EOF" && g.Pkg.Pkg.Path() == "io" {
+							isEOF = true
+						}
+					}
+					if !isEOF {
+						bad = append(bad, fmt.Sprintf("%s compares the scan error with a sentinel other than io.EOF at %s", core.FuncKey(fn), p.InstrPos(bo)))
+					}
+				}
+			}
+		}
+	}
+	if n < 3 {
+		core.Failf("vacuity guard: EOF2 expected >= 3 scan call sites (replay, merge, hint load), found %d", n)
+	}
+	rep.Check(len(bad) == 0, "EOF2", "scan-ends-on-eof-only", fmt.Sprintf("the %d scan loops treat only io.EOF as a normal end", n), "", strings.Join(sortedStr(bad), "; "), true)
+}
